@@ -474,7 +474,6 @@ namespace hs
         {
             if (raii_)
             {
-                husks_.clear();
                 // inner scopes end without unwinding on their own
                 while (keepers_.size() > std::size_t(i) + 1)
                 {
@@ -482,6 +481,9 @@ namespace hs
                     keepers_.pop_back();
                 }
                 keepers_[std::size_t(i)]->unwind();
+                // the moved-from unwinders go only now, when the stack may stand below the positions they once held:
+                // destroying them must do nothing (one that is still armed would unwind to a marker above the top)
+                husks_.clear();
                 return;
             }
             o_->unwind(markers_[std::size_t(i)]);
